@@ -302,6 +302,10 @@ class HTTP1Connection(httputil.HTTPConnection):
             gen_log.info("Malformed HTTP message from %s: %s", self.context, e)
             if not self.is_client:
                 await self.stream.write(b"HTTP/1.1 400 Bad Request\r\n\r\n")
+            else:
+                # Tell the delegate that no response is coming, even if the
+                # error was found before headers_received was called.
+                need_delegate_close = True
             self.close()
             return False
         finally:
